@@ -169,6 +169,26 @@ pub fn encode_text(t: &str, enc: &str) -> Option<Vec<u8>> {
     e.encode(t, EncoderTrap::Ignore).ok()
 }
 
+/// pairs (a, b) with b listed as similar to a but not a to b, and the bytes the two code pages decode differently
+pub fn asymmetric_similar_pairs() -> Vec<(String, String, Vec<u8>)> {
+    let sup = supported();
+    let mut out = vec![];
+    for a in &sup {
+        for b in &sup {
+            if charset_normalizer_rs::verif_hooks::is_cp_similar(a, b) && !charset_normalizer_rs::verif_hooks::is_cp_similar(b, a) {
+                if let (Some(ca), Some(cb)) = (encoding_from_whatwg_label(a), encoding_from_whatwg_label(b)) {
+                    let diff: Vec<u8> = (0x80u16..=0xff)
+                        .map(|x| x as u8)
+                        .filter(|x| ca.decode(&[*x], DecoderTrap::Strict).ok() != cb.decode(&[*x], DecoderTrap::Strict).ok())
+                        .collect();
+                    out.push((a.clone(), b.clone(), diff));
+                }
+            }
+        }
+    }
+    out
+}
+
 pub struct Case {
     pub kind: String,
     pub bytes: Vec<u8>,
@@ -203,7 +223,7 @@ pub fn gen_case(r: &mut Rng, corpus: &Corpus, max_len: usize) -> Case {
     let sup = supported();
     let kind;
     let mut bytes: Vec<u8>;
-    match r.below(12) {
+    match r.below(14) {
         0 | 1 => {
             kind = "corpus-slice";
             let f = r.pick(&corpus.files);
@@ -308,6 +328,38 @@ pub fn gen_case(r: &mut Rng, corpus: &Corpus, max_len: usize) -> Case {
             if r.chance(1, 3) && bytes.len() > 2 {
                 let p = r.below(bytes.len() - 1) + 1;
                 bytes.truncate(p);
+            }
+        }
+        12 | 13 => {
+            // short words in which a few letters are replaced by high bytes from a small palette:
+            // the single-byte code pages read them as letters, accents or symbols, so similar code
+            // pages split between accepted and soft-failed (exercises the similarity bookkeeping)
+            kind = "highbyte-words";
+            let asym = asymmetric_similar_pairs();
+            let pal: Vec<u8> = if !asym.is_empty() && r.chance(1, 2) {
+                // bytes on which an asymmetrically-similar pair of code pages disagrees
+                let (_, _, diff) = r.pick(&asym);
+                if diff.is_empty() { vec![r.range(0xa0, 0xff) as u8] } else { (0..r.range(1, 3)).map(|_| *r.pick(diff)).collect() }
+            } else {
+                (0..r.range(1, 3)).map(|_| r.range(0xa0, 0xff) as u8).collect()
+            };
+            let reps = r.range(4, 40);
+            let wn = r.range(2, 6);
+            let mut unit: Vec<u8> = vec![];
+            for _ in 0..wn {
+                let wl = r.range(1, 6);
+                for k in 0..wl {
+                    if r.chance(1, 3) || (k == 0 && r.chance(1, 3)) {
+                        unit.push(*r.pick(&pal));
+                    } else {
+                        unit.push(b'a' + r.below(26) as u8);
+                    }
+                }
+                unit.push(b' ');
+            }
+            bytes = vec![];
+            for _ in 0..reps {
+                bytes.extend_from_slice(&unit);
             }
         }
         10 => {
